@@ -320,7 +320,9 @@ class Gen:
         if issubclass(c, dc.TimestampConverter):
             return r.choice([0, 1, 1700000000123, r.randint(0, 2 ** 40)]) / 1000
         if issubclass(c, dc.DurationConverter):
-            return r.choice([0, 1, 5, 60, 3600, 86400, 0.5, 0.25, 1.5, 90, 0.125, 12345])
+            if r.random() < 0.3:     # 1..6 fraction digits: the writer's resolution is 1 us (more digits only on the read path)
+                return float(f'{r.choice([0, 1, 59, 3600])}.{"".join(r.choice("0123456789") for _ in range(r.randint(1, 6)))}')
+            return r.choice([0, 1, 5, 60, 3600, 86400, 0.5, 0.25, 1.5, 90, 0.125, 12345, 0.123456, 1.000001, 0.000001])
         return None
 
     def element(self):
@@ -491,6 +493,9 @@ class Enc:
         self.cp = {}      # (conv, lexical) -> py token | None (raises)
         self.qattrs = {XSI_TYPE}
         self.qtags = set()
+        # duration-valued members (xs:duration): attribute names / element tags
+        self.dur_attrs = {e['xml'] for ce in tab.entries for e in ce['props'] if e['kind'] == 'attr' and e['conv'] == 'Duration'}
+        self.dur_tags = {e['xml'] for ce in tab.entries for e in ce['props'] if e['kind'] == 'text' and e['conv'] == 'Duration' and e['xml']}
         # list-valued lexical forms (xs:list): element tags whose text is a list, attribute names whose value is a list
         self.list_attrs = {e['xml'] for ce in tab.entries for e in ce['props'] if e['kind'] == 'attrList'}
         self.list_tags = {e['xml'] for ce in tab.entries for e in ce['props'] if e['kind'] == 'textList' and e['xml']}
@@ -794,6 +799,37 @@ def list_whitespace_variant(enc: Enc, node, rng):
     return etree.fromstring(etree.tostring(doc)), n
 
 
+def _pad_duration(lex: str, rng) -> str:
+    """an xs:duration lexical form of the same value with 7..12 fraction digits in the seconds field"""
+    import re
+    m = re.fullmatch(r'(-?P(?:\d+Y)?(?:\d+M)?(?:\d+D)?T(?:\d+H)?(?:\d+M)?)(\d+)(?:\.(\d+))?S', lex)
+    if m is None:
+        if re.fullmatch(r'-?P(?:\d+Y)?(?:\d+M)?(?:\d+D)?(?:T(?:\d+H)?(?:\d+M)?)?', lex) and lex not in ('P', '-P'):
+            return lex + ('' if 'T' in lex else 'T') + '0.' + '0' * rng.randint(7, 12) + 'S'
+        return lex
+    frac = (m.group(3) or '')
+    return f'{m.group(1)}{m.group(2)}.{frac.ljust(rng.randint(max(7, len(frac) + 1), max(12, len(frac) + 1)), "0")}S'
+
+
+def duration_variant(enc: Enc, node, rng):
+    """the same document with the seconds of every xs:duration written with more fraction digits (trailing zeros)"""
+    doc = etree.fromstring(etree.tostring(node))
+    n = 0
+    for el in doc.iter():
+        if not isinstance(el.tag, str):
+            continue
+        if el.tag in enc.dur_tags and el.text and not len(el):
+            new = _pad_duration(el.text.strip(), rng)
+            n += new != el.text
+            el.text = new
+        for k, v in list(el.attrib.items()):
+            if k in enc.dur_attrs:
+                new = _pad_duration(v.strip(), rng)
+                n += new != v
+                el.set(k, new)
+    return doc, n
+
+
 def foreign_oracle(ctx, tab: Table, enc: Enc, obj, node, case, variant):
     """a document with the same content written by a foreign stack must be read to the same value"""
     key = sh.class_key(type(obj))
@@ -810,6 +846,10 @@ def foreign_oracle(ctx, tab: Table, enc: Enc, obj, node, case, variant):
     if nlists:
         ctx.count('foreign:list-whitespace')
         variant += '+list-whitespace'
+    doc, ndur = duration_variant(enc, doc, random.Random(len(etree.tostring(doc)) + 1))
+    if ndur:
+        ctx.count('foreign:duration-fraction-digits')
+        variant += '+duration-digits'
     try:
         back = parse_node(type(obj), doc)
     except Exception as ex:  # noqa: BLE001
